@@ -23,7 +23,7 @@ THEOREMS_BY_PROP = {
             "DepLogic.C02.atomPv3_good", "DepLogic.C02.atomImpl_good", "DepLogic.C02.inexact_never_merged", "DepLogic.C11.reversed_canonical_good"],
     "C03": ["DepLogic.C03.build_sound", "DepLogic.C03.build_sound_final", "DepLogic.M.sound_all", "DepLogic.M.singleSound"],
     "C07": ["DepLogic.C07.str_empty_any", "DepLogic.C07.items_sem", "DepLogic.C07.reparse_sound", "DepLogic.C07.reparse_sound_final",
-            "DepLogic.C07.items_ok", "DepLogic.C07.read_quote", "DepLogic.C07.quote_roundtrip", "DepLogic.C07.quote_shape",
+            "DepLogic.C07.items_ok", "DepLogic.C07.atom_text", "DepLogic.C07.atomStr_toList", "DepLogic.C07.read_quote", "DepLogic.C07.quote_roundtrip", "DepLogic.C07.quote_shape",
             "DepLogic.C07.atomOf_atomItem", "DepLogic.C03.build_sound"],
     "C12": ["DepLogic.C12.only_mentions", "DepLogic.C12.only_implied", "DepLogic.C12.only_same",
             "DepLogic.C12.exclude_mentions", "DepLogic.C12.exclude_implied", "DepLogic.C12.exclude_same_partial",
@@ -507,6 +507,25 @@ def pkg_read_literal(text: str) -> str:
     return "ok\t" + enc(v) + "\t" + enc(text[len(tok.text):])
 
 
+def pkg_read_atom(text: str) -> str:
+    """packaging's `_parse_marker_item` on the head of `text`: its (lhs, op, rhs) in the protocol's token syntax and the
+    text left over"""
+    import warnings
+    from packaging._tokenizer import Tokenizer, DEFAULT_RULES
+    from packaging._parser import _parse_marker_item, Variable
+    tk = Tokenizer(text, rules=DEFAULT_RULES)
+    try:
+        with warnings.catch_warnings():
+            warnings.simplefilter("ignore")
+            lhs, op, rhs = _parse_marker_item(tk)
+    except Exception:  # noqa: BLE001
+        return "none"
+    if any(0xD800 <= ord(c) <= 0xDFFF for c in lhs.value + rhs.value):
+        return "none"
+    v = isinstance(lhs, Variable)
+    return f"ok\ta:{'t' if v else 'f'}:{enc(str(lhs.value))}:{enc(str(op.value))}:{enc(str(rhs.value))}\t{enc(text[tk.position:])}"
+
+
 def evaluate_lock(m, env):
     try:
         return m.evaluate(dict(env), context="lock_file")
@@ -800,6 +819,31 @@ def run_shape(run: core.Run, prop: str, n: int) -> None:
                 n_q += 1
                 run.add(core.Case("C07.read", "q.read\t" + enc(text), pkg_read_literal(text)))
         run.extra["literal_step_cases"] = n_q
+        # one atom as text against the model (Lean: C07.atom_text): what packaging's `_parse_marker_item` reads from the text
+        # of a rendered atom (followed by more marker text), from deprecated / odd spellings and from near misses
+        n_a = 0
+        arng = core.random.Random(f"{run.seed}|atomtext")
+        atexts = []
+        for _ in range(300 if run.tier == "quick" else 3000):
+            t = mk.atom(arng)
+            try:
+                m = mk.parse_marker(t)
+            except Exception:  # noqa: BLE001
+                continue
+            if isinstance(m, mk.MarkerExpression):
+                atexts.append(str(m) + arng.choice(["", " and os_name == 'x'", ")", " or extra == \"a\"", "  "]))
+        for var in ("os.name", "sys.platform", "platform.version", "platform.machine", "platform.python_implementation",
+                    "python_implementation", "python.version", "os_namex", "xos_name", "extras", "extra", "extrass", "dependency_groups",
+                    "platform_python_implementation", "Os_name"):        # (not: a name followed by a dot, where the model's
+            # maximal-run reading of the VARIABLE rule and the regular expression part ways; stated in Model/MarkerText.lean)
+            for op in ("==", "!=", "<=", ">=", "<", ">", "~=", "===", "in", "not in", "not  in", "notin", "not\tin", "=", "=>"):
+                atexts += [f'{var} {op} "v"', f'"v" {op} {var}', f'{var}{op}"v"', f'"v"{op}{var} and x', f'  {var}\t{op}  \'v\' ']
+        for t in atexts:
+            if not t.isascii():
+                continue
+            n_a += 1
+            run.add(core.Case("C07.atom", "q.atom\t" + enc(t), pkg_read_atom(t)))
+        run.extra["atom_text_cases"] = n_a
     run.extra.update(time_budget_skips=stats["timeouts"], oracle_evaluations=stats["oracle"])
 
 
